@@ -212,6 +212,20 @@ def value_ctors(crate):
     return _VCTOR[key]
 
 
+_SYNT = {}
+
+
+def syntax_helpers(crate):
+    """Loop-free functions of syntax.rs (`KeywordSyntax::to_flag`, a `KeywordSyntaxes::contains`): how an option value
+    is stored and tested is looked through."""
+    key = id(crate)
+    if key not in _SYNT:
+        from . import cfg
+        _SYNT[key] = {f.path for f in crate.fns if f.kind != "closure" and f.file.endswith("src/syntax.rs") and not f.derived
+                      and not cfg.back_edges(f) and not f.impl_trait}
+    return _SYNT[key]
+
+
 def helper_inline(crate, named=()):
     """Inline policy: the named wrappers plus every loop-free local helper of the parse module and every
     local byte predicate `fn(u8) -> bool`."""
@@ -221,9 +235,10 @@ def helper_inline(crate, named=()):
     moved = {n.rsplit("::", 1)[1] for n in named if n.startswith("parse::") and "<" not in n}
 
     vctors = value_ctors(crate)
+    synt = syntax_helpers(crate)
 
     def inline(a, b):
-        return b.path in named or b.path in light or b.path in vctors or (b.crate == crate.name and scalar_fn(b)) or \
+        return b.path in named or b.path in light or b.path in vctors or b.path in synt or (b.crate == crate.name and scalar_fn(b)) or \
             (b.crate == crate.name and b.kind == "fn" and b.path.startswith("parse::") and "<" not in b.path
              and b.path.rsplit("::", 1)[1] in moved)
     return inline
